@@ -7,7 +7,7 @@ pub const FAMILIES: [&str; 19] = [
     "negzero", "tiechain", "rowconst",
 ];
 /// families that are valid input only for some methods (never drawn blindly)
-pub const SPECIAL_FAMILIES: [&str; 4] = ["rampdips", "maxmag", "hugechain", "subnormal"];
+pub const SPECIAL_FAMILIES: [&str; 5] = ["rampdips", "maxmag", "hugechain", "subnormal", "star"];
 
 /// sizes next to the powers of two at which word / block / narrow-integer shortcuts change behaviour
 pub const BOUNDARY_SIZES: [u64; 18] = [31, 32, 33, 63, 64, 65, 127, 128, 129, 131, 132, 135, 191, 192, 193, 255, 256, 257];
@@ -124,6 +124,13 @@ pub fn matrix_f64(rng: &mut Rng, n: usize, fam: &str, wide: bool) -> Vec<f64> {
             let least = if wide { 5e-324 } else { 1.4e-45 };
             for _ in 0..len {
                 v.push(match rng.below(5) { 0 => least * (1 + rng.below(7)) as f64, 1 => tiny * rng.unit(), 2 => 0.0, 3 => tiny * (1.0 + rng.unit()), _ => rng.unit() });
+            }
+        }
+        "star" => {
+            // one hub: every observation is close to the last one (by slightly different amounts) and
+            // far from all the others, so each merge makes nearly every cached nearest neighbour stale
+            for (i, j) in pairs(n) {
+                v.push(if j == n - 1 { 1.0 + i as f64 * 1e-6 } else { 20.0 + (i * 100 + j) as f64 * 1e-9 });
             }
         }
         "hugechain" => {
